@@ -17,6 +17,13 @@ Write sinks carry the precondition of the property "never replaces an existing f
     DataFrame.to_csv(name, ...) etc.          obligation  pre:no-overwrite:<method>
     os.rename(src, dst) / shutil.copy(src, dst)           pre:no-overwrite:<fn>   not EX[dst]
 
+Content (round 3, agent m2): a second ghost array `CT : atom -> atom` gives the content of each file as a string atom.
+`open(name, 'w'|'wb'|'x')` sets CT[name] to the empty string, `f.write(s)` appends s (`str_cat`, with '' + s == s),
+`pickle.dump(obj, f)` appends the uninterpreted image `c14_pickled(obj)`, `frame.to_csv(name, ...)` sets CT[name] to
+`c14_csv(frame)`, `os.rename` / `shutil.copy` / `shutil.move` give dst the content of src; `print(..., file=f)`, `writelines` and writes in append mode leave the content unconstrained.
+What the images mean (pickle / csv fidelity) is decided by the bounded round trips; the deductive clause is "the
+writer puts THIS object / THIS report text into the new file".
+
 Writes inside loops are not supported by this model (the ghost state is not havocked by the loop
 rule); none of the functions under contract does that.  Only partial correctness is claimed:
 `get_new_file_name` loops for ever in a directory that contains every candidate name.
@@ -36,6 +43,42 @@ KEY = 'c14_fs'
 # type name usable in C14 contracts only: an opaque pandas frame whose writer methods are sinks
 VV._SIMPLE['c14.DataFrame'] = VV.TRef('pandas.DataFrame')
 WRITE_METHODS = ('to_csv', 'to_pickle', 'to_json', 'to_excel', 'to_parquet', 'to_feather', 'to_stata', 'to_hdf')
+
+
+CT0 = z3.Array('c14_ct0', I, I)
+CKEY = 'c14_ct'
+
+
+def ct_now(st):
+    if st.use_old:
+        return CT0
+    return st.ghost.get(CKEY, CT0)
+
+
+def _empty_atom():
+    return as_atom(VV.v_str(''))
+
+
+def ct_set(st, atom, content):
+    st.ghost[CKEY] = z3.Store(ct_now(st), atom, content)
+
+
+def ct_append(st, atom, piece):
+    """content := content + piece ('' + piece == piece)."""
+    cur = z3.Select(ct_now(st), atom)
+    ct_set(st, atom, z3.If(cur == _empty_atom(), piece, VV.uf('str_cat', I, I, I)(cur, piece)))
+
+
+def ct_havoc(st, atom):
+    ct_set(st, atom, z3.Const(VV.fresh_name('c14_content'), I))
+
+
+def pickled_atom(ex, st, obj):
+    return VV.uf('c14_pickled', VV.Val, I)(ex.box(st, obj))
+
+
+def csv_atom(ex, st, frame):
+    return VV.uf('c14_csv', VV.Val, I)(ex.box(st, frame))
 
 
 def fs_now(st):
@@ -103,6 +146,7 @@ def _two_names(name):
             raise Unsupported(f'{name} arity')
         dst = as_atom(_str_arg(args[1], name))
         fs_write(ex, st, dst, name, node, strong=True)
+        ct_set(st, dst, z3.Select(ct_now(st), as_atom(_str_arg(args[0], name))))     # dst gets the content of src
         if name == 'os.rename':
             src = as_atom(_str_arg(args[0], name))
             st.ghost[KEY] = z3.Store(fs_now(st), src, z3.BoolVal(False))
@@ -138,6 +182,7 @@ def _pickle_dump(ex, st, args, kwargs, node):
     f = args[1] if len(args) > 1 else kwargs.get('file')
     if f is None or f.kind != 'py' or f.py[0] != 'c14file' or 'r' in f.py[2]:
         raise Unsupported('pickle.dump to something that is not a file opened for writing in this function')
+    ct_append(st, as_atom(f.py[1]), pickled_atom(ex, st, args[0] if args else kwargs['obj']))
     return v_none()
 
 
@@ -165,6 +210,10 @@ def _with_open(ex, st, node):
     if any(c in mode for c in 'wax+'):
         ex.ctx.note('LIBSPEC open(name, write mode): write event on name (ghost file system)')
         fs_write(ex, st, as_atom(name), 'open', call)
+        if 'a' in mode or '+' in mode and 'w' not in mode:
+            ct_havoc(st, as_atom(name))          # earlier content kept / unknown
+        else:
+            ct_set(st, as_atom(name), _empty_atom())
     else:
         return None       # open() for reading: the content of files is not modelled here (declined)
     fv = v_py(('c14file', name, mode))
@@ -188,6 +237,17 @@ def _call_pyobj(ex, st, fv, args, kwargs, node):
     if fv.py[0] == 'c14filemeth':
         if 'r' in fv.py[1].py[2] and fv.py[2] in ('write', 'writelines'):
             raise Unsupported('write to a file opened for reading')
+        target = as_atom(fv.py[1].py[1])
+        if fv.py[2] == 'write':
+            if len(args) != 1 or kwargs:
+                raise Unsupported('file.write arity')
+            piece = args[0]
+            if piece.kind != 'str':
+                ct_havoc(st, target)             # bytes / unknown value: content not modelled
+            else:
+                ct_append(st, target, as_atom(piece))
+        elif fv.py[2] == 'writelines':
+            ct_havoc(st, target)
         return v_none()
     return _orig_call_pyobj(ex, st, fv, args, kwargs, node)
 
@@ -195,6 +255,7 @@ def _call_pyobj(ex, st, fv, args, kwargs, node):
 def _print_to(ex, st, args, kw, node):
     f = kw.get('file')
     if f is not None and f.kind == 'py' and f.py[0] == 'c14file':
+        ct_havoc(st, as_atom(f.py[1]))           # text printed to the file: content not modelled
         return v_none()
     return _orig_print_to(ex, st, args, kw, node)
 
@@ -219,7 +280,12 @@ def _df_method(ex, st, recv, name, args, kwargs, node):
         target = args[0] if args else kwargs.get('path_or_buf', kwargs.get('path'))
         if target is None:
             raise Unsupported(f'DataFrame.{name} without a target')
-        fs_write(ex, st, as_atom(_str_arg(target, name)), name, node)
+        tgt = as_atom(_str_arg(target, name))
+        fs_write(ex, st, tgt, name, node)
+        if name == 'to_csv':
+            ct_set(st, tgt, csv_atom(ex, st, recv))
+        else:
+            ct_havoc(st, tgt)
         return v_none()
     return None
 
